@@ -15,7 +15,10 @@ META = {
              "into the constant), free-variable sets, unreachability of the constant-losing likelihood-only branch and order "
              "independence on all digraphs with N<=4 variables (65,536 states for N=4), requires two named deviations to violate "
              "ExactlyOnce, and emits every behaviour for N<=3 (simulated behaviours for N=4); every behaviour is replayed on two "
-             "realisations with the log-density compared after every step against a closed-form oracle of the original factors."),
+             "realisations with the log-density compared after every step against a closed-form oracle of the original factors. "
+             "Recorded lineages (replays, the repository's tests, and every conditional factor of every graph used stand-alone: staged "
+             "conditioning on all subsets of its parents, complete / missing / misnamed / surplus / re-fixed keyword sets) are "
+             "validated against TraceJointCond.tla."),
     "note": ("Families and callables of the realisations are fixed recipes (jointgraphs.py); dims 1-3; values on a half-integer "
              "lattice; rtol 1e-9. Result classes are logged for coverage, not asserted."),
     "technique": "TLA+ spec (JointCond) model-checked with TLC; every TLC-generated conditioning behaviour replayed into JointDistribution with a closed-form oracle",
@@ -275,6 +278,95 @@ def validate_lineages(ctx, traces, label):
     return [t for v, t in zip(verdicts, traces) if v["ok"]]
 
 
+def factor_lineages(ctx, graphs, realisations):
+    """A conditional factor used STAND-ALONE (p(x | parents) evaluated / conditioned by the user directly, without a joint around
+    it) is the one-factor instance of the specification: the root is the factor, its variables are its own variable and its
+    parents.  The harness performs every staged conditioning (all subsets of the parents, then the rest) and every kind of
+    evaluation call - complete, one variable missing, one NAME replaced by an unknown one (the call has the right number of
+    keywords), surplus unknown keyword, a value for an already fixed variable - and logs what happened in the event format of
+    TraceJointCond.tla, which accepts a value exactly for the complete set and demands a refusal for everything else."""
+    from cuqiverif import jointgraphs as jg
+    from cuqiverif.zoo import quiet
+    import itertools
+    traces = []
+    for par in graphs:
+        for r in realisations:
+            R = jg.Realisation(par, r)
+            vals = R.completion(2)
+            for v, fac in R.factors.items():
+                P = list(fac.parents)
+                if not P:
+                    continue
+                loc = {v: 1}
+                loc.update({p: i + 2 for i, p in enumerate(P)})
+                gl = {loc[u]: u for u in loc}
+                events = [{"e": "construct", "names": list(range(1, len(loc) + 1)), "parents": [list(range(2, len(loc) + 1))] + [[] for _ in P]}]
+                with quiet():
+                    root = fac.build()
+                objs = [(1, root, frozenset())]
+                nobj = 1
+                subsets = [S for k in range(1, len(P) + 1) for S in itertools.combinations(P, k)]
+                for S in subsets:
+                    try:
+                        with quiet():
+                            res = root(**{jg.name(p): vals[p] for p in S})
+                    except Exception as ex:
+                        events.append({"e": "condition", "obj": 1, "given": [loc[p] for p in S], "res": 0, "names": [], "cls": "refused"})
+                        continue
+                    nobj += 1
+                    try:
+                        names = [loc[u] for u in loc if jg.name(u) in set(res.get_parameter_names())]
+                        if len(names) != len(res.get_parameter_names()):
+                            names = [0]
+                    except Exception:
+                        names = [0]
+                    events.append({"e": "condition", "obj": 1, "given": [loc[p] for p in S], "res": nobj, "names": names, "cls": type(res).__name__})
+                    objs.append((nobj, res, frozenset(S)))
+                    rest = [p for p in P if p not in S]
+                    if rest and len(S) == 1:           # second stage: the remaining parents
+                        try:
+                            with quiet():
+                                res2 = res(**{jg.name(p): vals[p] for p in rest})
+                            nobj += 1
+                            names = [loc[u] for u in loc if jg.name(u) in set(res2.get_parameter_names())]
+                            events.append({"e": "condition", "obj": nobj - 1, "given": [loc[p] for p in rest], "res": nobj, "names": names,
+                                           "cls": type(res2).__name__})
+                            objs.append((nobj, res2, frozenset(P)))
+                        except Exception:
+                            events.append({"e": "condition", "obj": nobj, "given": [loc[p] for p in rest], "res": 0, "names": [], "cls": "refused"})
+                exp = fac.oracle(vals)
+                for oid, obj, F in objs:
+                    free = [u for u in loc if u not in F]
+                    kw = {jg.name(u): vals[u] for u in free}
+                    calls = [("complete", dict(kw), False)]
+                    for u in free:
+                        miss = dict(kw)
+                        miss.pop(jg.name(u))
+                        if miss:
+                            calls.append(("missing", miss, False))
+                        mis = dict(miss)
+                        mis["zz_unknown"] = vals[u]
+                        calls.append(("misnamed", mis, True))
+                    calls.append(("surplus", dict(kw, zz_unknown=np.ones(1)), True))
+                    for u in F:
+                        calls.append(("refixed", dict(kw, **{jg.name(u): vals[u]}), False))
+                        break
+                    for what, k, malformed in calls:
+                        given = sorted(loc[u] for u in loc if jg.name(u) in k)
+                        try:
+                            with quiet():
+                                out = obj.logd(**k)
+                            ok = _close(out, exp)
+                            events.append({"e": "logd", "obj": oid, "given": given, "outcome": "value", "value_ok": bool(ok), "malformed": malformed,
+                                           "call": what})
+                        except Exception:
+                            events.append({"e": "logd", "obj": oid, "given": given, "outcome": "error", "value_ok": False, "malformed": malformed,
+                                           "call": what})
+                        ctx.facets["factor_call/" + what] = ctx.facets.get("factor_call/" + what, 0) + 1
+                traces.append({"events": events, "meta": {"families": [fac.family], "factor": jg.name(v), "par": par, "r": r, "standalone": True}})
+    return traces
+
+
 def run(ctx):
     from cuqiverif.core import MachineryError
     warnings.filterwarnings("ignore")
@@ -321,6 +413,15 @@ def run(ctx):
             ctx.case(("cond", c["n"], str(c["par"]), str(c["hist"]), r))
             replay_case(ctx, c, r, rnd)
     good = validate_lineages(ctx, rec.trace_list(), "replays")
+    # stand-alone conditional factors (the one-factor instance of the specification), every graph of the exhaustive configurations
+    graphs = sorted({json.dumps(c["par"]) for c in cases})
+    ft = factor_lineages(ctx, [json.loads(g) for g in graphs], (0, 1, 2))
+    if not ft:
+        raise MachineryError("no stand-alone conditional factor was exercised")
+    okf = validate_lineages(ctx, ft, "standalone-factors")
+    for need_call in ("complete", "missing", "misnamed", "surplus", "refixed"):
+        if not ctx.facets.get("factor_call/" + need_call):
+            raise MachineryError("vacuous stand-alone factor facet: no %s call" % need_call)
     if ctx.tier == "thorough":
         rt = record_repo_tests()
         ctx.observe("repo_test_lineages", {"traces": len(rt), "pytest": dict(LAST_PYTEST)})
